@@ -49,6 +49,8 @@ enum Kind {
     Tiny,
     /// `^.*(?<=a{N})$`: the last N characters are all a (texts with an x in them)
     Suffix,
+    /// `^.*(?<=.{N})b$`: at least N characters (of mixed UTF-8 widths) stand before the b
+    CharsBefore,
 }
 
 const FANCY_FORMS: &[Form] = &[
@@ -71,6 +73,9 @@ const LOOKBEHIND_FORMS: &[Form] = &[
     Form { template: "^.*(?<=a{N})$", kind: Kind::Suffix, cap: 3_000 },
     Form { template: "^.*(?<=(?=)a{N})$", kind: Kind::Suffix, cap: 3_000 },
     Form { template: "^.*(?<=a{N})(?<!xa{N})$", kind: Kind::Suffix, cap: 3_000 },
+    Form { template: "^.*(?<=.{N})b$", kind: Kind::CharsBefore, cap: 300 },
+    Form { template: "^.*(?<!.{N})b$", kind: Kind::CharsBefore, cap: 300 },
+    Form { template: "^.*(?<=(?=).{N})b$", kind: Kind::CharsBefore, cap: 300 },
     Form { template: "^a*(?<=^a{N})$", kind: Kind::Exact(1), cap: 20_000 },
     Form { template: "^a*(?<=a{N})$", kind: Kind::AtLeast, cap: 20_000 },
     Form { template: "^a*(?<!a{N})$", kind: Kind::LessThan, cap: 20_000 },
@@ -118,7 +123,7 @@ fn expect(kind: Kind, n: usize, m: usize) -> bool {
         Kind::UpTo => m >= 1 && m <= n,
         Kind::LessThan => m < n,
         Kind::Tiny => true,
-        Kind::Suffix => unreachable!(),
+        Kind::Suffix | Kind::CharsBefore => unreachable!(),
     }
 }
 
@@ -144,6 +149,34 @@ fn cases(f: &Form, n: usize) -> Vec<(String, bool)> {
             v.push((format!("{}x{}", a(n / 2), a(n - n / 2 - 1)), false));
             v.push((format!("{}{}", a(n / 10 + 1), "x".repeat(n - n / 10 - 1)), false));
         }
+        return v;
+    }
+    if let Kind::CharsBefore = f.kind {
+        let negated = f.template.contains("(?<!");
+        let mut v = Vec::new();
+        for t in [n.saturating_sub(1), n, n + 1] {
+            let rep = |c: &str, k: usize| c.repeat(k);
+            let mut bodies = vec![rep("é", t), rep("a", t)];
+            if t >= 1 {
+                bodies.push(format!("{}a", rep("é", t - 1)));
+                bodies.push(format!("a{}", rep("é", t - 1)));
+                bodies.push(format!("€{}", rep("é", t - 1)));
+                bodies.push(format!("{}😀", rep("é", t - 1)));
+                bodies.push((0..t).map(|i| if i % 2 == 0 { "é" } else { "a" }).collect::<String>());
+                bodies.push((0..t).map(|i| ["a", "é", "€", "😀"][i % 4]).collect::<String>());
+            }
+            if t >= 9 {
+                bodies.push(format!("{}{}", rep("a", t - 8), rep("é", 8)));
+                bodies.push(format!("{}a{}", rep("é", 8), rep("a", t - 9)));
+            }
+            for b in bodies {
+                // (?<=.{0}) always holds, (?<!.{0}) never does
+                let holds = t >= n;
+                v.push((format!("{}b", b), if negated { !holds } else { holds }));
+            }
+        }
+        v.sort();
+        v.dedup();
         return v;
     }
     lengths(f.kind, n)
@@ -351,7 +384,7 @@ fn one_form(t: &mut Tally, f: &Form, n: usize, against_regex_crate: bool) {
             Out::NoMatch => Some(false),
             _ => None,
         };
-        let shown = if m <= 24 { format!("{:?}", text) } else if text.bytes().all(|b| b == b'a') { format!("a^{}", m) } else { format!("{:?}...({} bytes)", &text[..12], m) };
+        let shown = if m <= 24 { format!("{:?}", text) } else if text.bytes().all(|b| b == b'a') { format!("a^{}", m) } else { format!("{:?}...({} bytes)", text.chars().take(12).collect::<String>(), m) };
         if got_b != Some(exp) {
             t.violation(
                 pattern.len() + 4 * m,
